@@ -1,0 +1,187 @@
+//go:build verif
+
+// Verification hooks (C17, the glue between socks5.Handshake and the transport): `glue.run` of
+// the scripted driver in verif_hooks.go.  It runs the real clientHandler on a connection that
+// serves the given SOCKS5 messages step by step (message i only after i replies were written),
+// under a chosen logging configuration, with a transport factory that only records what
+// reaches ParseArgs (the argument map) and Dial (network, address, the value ParseArgs
+// returned), and reports the record.  Nothing here runs unless the driver is active; no
+// existing behaviour is changed.
+//
+//	glue.run <enable 0|1> <ERROR|WARN|INFO|DEBUG> <unsafe 0|1> <msghex>…
+//	  → ok parsed=<0|1> args=<k=v,v;…> dialed=<0|1> net=<hex> addr=<hex> dialargs=<k=v,v;…>
+//
+// <k=v,v;…>: keys sorted, keys and values in hex (`-` = empty string; `-` alone = empty map).
+package main
+
+import (
+	"encoding/hex"
+	"fmt"
+	"net"
+	"os"
+	"path/filepath"
+	"sort"
+	"strings"
+	"time"
+
+	pt "gitlab.torproject.org/tpo/anti-censorship/pluggable-transports/goptlib"
+
+	"gitlab.com/yawning/obfs4.git/common/log"
+	"gitlab.com/yawning/obfs4.git/transports/base"
+)
+
+func verifGlueHex(s string) string {
+	if s == "" {
+		return "-"
+	}
+	return hex.EncodeToString([]byte(s))
+}
+
+func verifGlueCanon(a pt.Args) string {
+	if len(a) == 0 {
+		return "-"
+	}
+	keys := make([]string, 0, len(a))
+	for k := range a {
+		keys = append(keys, k)
+	}
+	sort.Strings(keys)
+	var sb strings.Builder
+	for i, k := range keys {
+		if i > 0 {
+			sb.WriteByte(';')
+		}
+		sb.WriteString(verifGlueHex(k))
+		sb.WriteByte('=')
+		for j, v := range a[k] {
+			if j > 0 {
+				sb.WriteByte(',')
+			}
+			sb.WriteString(verifGlueHex(v))
+		}
+	}
+	return sb.String()
+}
+
+// verifRecFactory records what the glue hands to the transport.
+type verifRecFactory struct {
+	parsed   bool
+	args     string
+	dialed   bool
+	network  string
+	addr     string
+	dialArgs string
+	remote   net.Conn
+}
+
+func (f *verifRecFactory) Transport() base.Transport { return verifStubTransport{} }
+func (f *verifRecFactory) ParseArgs(a *pt.Args) (any, error) {
+	f.parsed = true
+	if a != nil {
+		f.args = verifGlueCanon(*a)
+	} else {
+		f.args = "nil"
+	}
+	return a, nil
+}
+
+func (f *verifRecFactory) Dial(network, addr string, _ base.DialFunc, args any) (net.Conn, error) {
+	f.dialed, f.network, f.addr = true, network, addr
+	if a, ok := args.(*pt.Args); ok && a != nil {
+		f.dialArgs = verifGlueCanon(*a) // the same map, looked at again at Dial time
+	} else {
+		f.dialArgs = "nil"
+	}
+	return f.remote, nil
+}
+
+var verifGlueSeq int
+
+func verifGlueRun(w []string) string {
+	if len(w) < 4 {
+		return "bad-op"
+	}
+	enable, unsafeLog := w[1] == "1", w[3] == "1"
+	var segs [][]byte
+	for _, h := range w[4:] {
+		b, err := hex.DecodeString(h)
+		if err != nil {
+			return "bad-op"
+		}
+		segs = append(segs, b)
+	}
+	logPath := ""
+	if enable {
+		if verifLogDir == "" {
+			d, err := os.MkdirTemp("", "o4plog")
+			if err != nil {
+				return "error " + strings.ReplaceAll(err.Error(), " ", "_")
+			}
+			verifLogDir = d
+		}
+		verifGlueSeq++
+		logPath = filepath.Join(verifLogDir, fmt.Sprintf("glue%d.log", verifGlueSeq))
+	}
+	if err := log.Init(enable, logPath, unsafeLog); err != nil {
+		return "error " + strings.ReplaceAll(err.Error(), " ", "_")
+	}
+	if err := log.SetLogLevel(w[2]); err != nil {
+		return "bad-op"
+	}
+	defer func() {
+		_ = log.Init(false, "", false)
+		_ = log.SetLogLevel("INFO")
+		if logPath != "" {
+			os.Remove(logPath)
+		}
+	}()
+
+	m := &termMonitor{sigChan: make(chan os.Signal), handlerChan: make(chan int)}
+	termMon = m
+	stop := make(chan struct{})
+	go func() {
+		for {
+			select {
+			case <-m.handlerChan:
+			case <-stop:
+				return
+			}
+		}
+	}()
+	defer close(stop)
+
+	local, peer := verifStrAddr{"127.0.0.1:9050"}, verifStrAddr{"127.0.0.1:40000"}
+	f := &verifRecFactory{remote: verifNewLogConn(local, verifStrAddr{"192.0.2.1:443"}, verifEOF())}
+	conn := verifNewLogConn(local, peer, nil, segs...)
+	done := make(chan struct{})
+	go func() {
+		defer close(done)
+		clientHandler(f, conn, nil)
+	}()
+	select {
+	case <-done:
+	case <-time.After(2 * time.Second):
+		// an incomplete / unanswered exchange: the handler waits for the client; end it
+		conn.Close()
+		select {
+		case <-done:
+		case <-time.After(10 * time.Second):
+			return "stuck"
+		}
+	}
+	b2i := func(b bool) int {
+		if b {
+			return 1
+		}
+		return 0
+	}
+	args, dargs := f.args, f.dialArgs
+	if args == "" {
+		args = "-"
+	}
+	if dargs == "" {
+		dargs = "-"
+	}
+	return fmt.Sprintf("ok parsed=%d args=%s dialed=%d net=%s addr=%s dialargs=%s", b2i(f.parsed), args, b2i(f.dialed),
+		verifGlueHex(f.network), verifGlueHex(f.addr), dargs)
+}
